@@ -37,6 +37,9 @@ def demo_plan(d, meta):
     cmd = meta.get("demo_cmd") or ""
     demos = sorted(glob.glob(os.path.join(d, "demo*.rs")))
     # destinations named in the command: `cp SEED/..../demo.rs <dest>`
+    dm = meta.get("demo") or {}
+    if dm.get("files") and dm.get("commands") and demos:
+        return [(demos[i], f) for i, f in enumerate(dm["files"]) if i < len(demos)], [re.sub(r"CARGO_TARGET_DIR=\S+", "", c) for c in dm["commands"]]
     dests = re.findall(r"cp\s+\S*?(demo\w*\.rs)\s+(\S+\.rs)", cmd)
     for src, dst in dests:
         files.append((os.path.join(d, src), re.sub(r"^/tmp/[\w-]+/", "", dst)))
